@@ -198,10 +198,13 @@ theorem WRRel.jd {E : Type} {g : Graph} {par : Nat} {D : E → Nat → Prop} {s0
   | err m s => exact fun p hp => jd p (WRel.done_sub h p hp)
   | bad m => trivial
 
+/-- The builds an invocation may consider at all (`build_only_requested`). -/
+def Wanted (g : Graph) (a : Args) (b : Nat) : Prop := ∃ f, Requested g a f ∧ Needs g f b
+
 theorem phase2_clean2 {E : Type} (g : Graph) (gok : GraphOK g) (a : Args) (c : Choices E) (P : E → Prop)
-    (D : E → Nat → Prop) (hD : CleanCheck g c P D)
+    (D : E → Nat → Prop) (hD : CleanCheck g c P D (Wanted g a))
     (s0 s2 : S) (e : E) (perms : List (List Nat)) (fin : List (Nat × Term)) (tb : Nat) (q : QF s0 s2)
-    (inv : Inv g a.par s2) (pe : P e) (jd : JD D s2 e) :
+    (inv : Inv g a.par s2) (pe : P e) (jd : JD D s2 e) (hW : ∀ b, s2.st b ≠ .unknown → Wanted g a b) :
     QF s0 (phase2 g a c s2 e perms fin tb).1 ∧ P (phase2 g a c s2 e perms fin tb).2.1 ∧
     (∀ n, (phase2 g a c s2 e perms fin tb).2.2 = .done n → n = tb + s0.tasksRun) ∧
     (∀ n, (phase2 g a c s2 e perms fin tb).2.2 ≠ .reload n) := by
@@ -225,10 +228,26 @@ theorem phase2_clean2 {E : Type} (g : Graph) (gok : GraphOK g) (a : Args) (c : C
       · exact wantAll_rel gok _ s2 s2 (WRel.refl inv)
       · exact wantAll_rel gok _ s2 s2 (WRel.refl inv)
   have hjd := WRRel.jd (D := D) (e := e) jd wanted hrel
+  have ht : TouchW g s2 (Requested g a) wanted := by
+    rw [← hw]
+    split
+    · exact wantTargets_touch g a _ s2 s2 _ (fun n hn t hl => Or.inr (Or.inl ⟨n, hn, hl⟩)) (fun b hb => Or.inl hb)
+    · rename_i ht
+      have hte : a.targets = [] := by cases h : a.targets with | nil => rfl | cons _ _ => simp [h] at ht
+      split
+      · exact wantAll_touch g _ s2 s2 _ (fun f hf => Or.inr (Or.inr (Or.inl ⟨hte, hf⟩))) (fun b hb => Or.inl hb)
+      · rename_i hd
+        have hde : a.defaults = [] := by cases h : a.defaults with | nil => rfl | cons _ _ => simp [h] at hd
+        exact wantAll_touch g _ s2 s2 _ (fun f hf => Or.inr (Or.inr (Or.inr ⟨hte, hde, by
+          simp only [List.mem_filter, List.mem_range] at hf; exact hf.1⟩))) (fun b hb => Or.inl hb)
   cases wanted with
   | ok u s3 =>
     simp only []
-    obtain ⟨r1, r2, r3, r4, _⟩ := runLoop_quiet2 (g := g) (par := a.par) c P D hD (runFuel g) s3 e perms fin hrel.inv hk.1 pe hjd
+    have hW3 : ∀ b, s3.st b ≠ .unknown → Wanted g a b := fun b hb => by
+      rcases ht b hb with h | h
+      · exact hW b h
+      · exact h
+    obtain ⟨r1, r2, r3, r4, _⟩ := runLoop_quiet2 (g := g) (par := a.par) c P D _ hD (runFuel g) s3 e perms fin hrel.inv hk.1 pe hjd hW3
     have qf : QF s0 (runLoop g a.par c (runFuel g) s3 e perms fin).s := ⟨r1, hk.2.trans r3⟩
     split
     · refine ⟨qf, r2, ?_, fun n h => by cases h⟩
@@ -252,7 +271,7 @@ theorem phase2_clean2 {E : Type} (g : Graph) (gok : GraphOK g) (a : Args) (c : C
 /-- **`run::build` runs nothing when every step is found clean once its producers have been
     checked**: no start or finish event, no reload, `done 0` when it succeeds. -/
 theorem build_clean2 {E : Type} (g : Graph) (gok : GraphOK g) (a : Args) (c : Choices E) (P : E → Prop)
-    (D : E → Nat → Prop) (hD : CleanCheck g c P D) (e : E) (pe : P e) :
+    (D : E → Nat → Prop) (hD : CleanCheck g c P D (Wanted g a)) (e : E) (pe : P e) :
     sf (build g a c e).1.trace = [Ev.load] ∧ (build g a c e).1.tasksRun = 0 ∧ P (build g a c e).2.1 ∧
     (∀ n, (build g a c e).2.2 = .done n → n = 0) ∧ (∀ n, (build g a c e).2.2 ≠ .reload n) := by
   have q0 : QF (fresh a) (fresh a) := ⟨fresh_quiet a, Frame.refl _⟩
@@ -268,11 +287,17 @@ theorem build_clean2 {E : Type} (g : Graph) (gok : GraphOK g) (a : Args) (c : Ch
   have hw := want_keep g (QF (fresh a)) (qf_set g (fresh a)) (fresh a) a.manifest q0
   have hrel := want_rel gok (fresh a) a.manifest i0
   have hjd := WRRel.jd (D := D) (e := e) j0 _ hrel
+  have htm := want_touch g (fresh a) a.manifest
   cases hwm : want g (fresh a) a.manifest with
   | ok u s1 =>
-    rw [hwm] at hw hrel hjd
+    rw [hwm] at hw hrel hjd htm
     simp only []
-    obtain ⟨r1, r2, r3, r4, r5⟩ := runLoop_quiet2 (g := g) (par := a.par) c P D hD (runFuel g) s1 e c.perms c.finishes hrel.inv hw.1 pe hjd
+    have hW1 : ∀ b, s1.st b ≠ .unknown → Wanted g a b := fun b hb => by
+      rcases htm b hb with h | h
+      · exact absurd rfl h
+      · exact ⟨a.manifest, Or.inl rfl, h⟩
+    have hkp := runLoop_keeps c (runFuel g) s1 e c.perms c.finishes hrel.inv
+    obtain ⟨r1, r2, r3, r4, r5⟩ := runLoop_quiet2 (g := g) (par := a.par) c P D _ hD (runFuel g) s1 e c.perms c.finishes hrel.inv hw.1 pe hjd hW1
     have qf : QF (fresh a) (runLoop g a.par c (runFuel g) s1 e c.perms c.finishes).s := ⟨r1, hw.2.trans r3⟩
     split
     · rename_i hres
@@ -281,7 +306,7 @@ theorem build_clean2 {E : Type} (g : Graph) (gok : GraphOK g) (a : Args) (c : Ch
       rw [if_neg (by rw [htr]; simp)]
       obtain ⟨i1, j1⟩ := r5 hres
       obtain ⟨b1, b2, b3, b4⟩ := phase2_clean2 g gok a c P D hD (fresh a) _ _ (runLoop g a.par c (runFuel g) s1 e c.perms c.finishes).perms
-        (runLoop g a.par c (runFuel g) s1 e c.perms c.finishes).finishes 0 qf i1 r2 j1
+        (runLoop g a.par c (runFuel g) s1 e c.perms c.finishes).finishes 0 qf i1 r2 j1 (fun b hb => hW1 b (hkp b hb))
       exact fin_of _ b1 b2 b3 b4
     · apply fin_of _ qf r2
       · intro n h
